@@ -319,7 +319,7 @@ def judge(prop, r, script, outcomes, h, label=''):
             # message cut short by the peer
             # (a cut inside the trailer section - after the last chunk, before the closing empty line - is a message cut
             # short like any other: the trailer fields, part of the message, are incomplete)
-            lenient = (endkind == 'rst' and ref.framing == 'close') or (endkind == 'rst' and ref.error == 'incomplete')
+            lenient = (endkind == 'rst' and ref.error == 'incomplete' and ref.framing != 'close')
             if o.get('ok') and not lenient and prop == 'C08':
                 r.violate(prop, 'truncated-accepted', '%s:%s' % (shape, ref.error),
                           'exchange %d %s: message truncated (%s) but reported as success with %d body bytes%s'
